@@ -38,7 +38,11 @@ def gen_specs(rng, n, quick):
         ratio = rng.choice([None, None, None, 2.0, 10.0, 100.0, round(10 ** rng.uniform(0, 2), 3)])
         if family == "random_multi":
             ratio = None  # a multi-simplex SciPy start is Delaunay in the euclidean metric only
-        specs.append({"seed": rng.randrange(1 << 40), "dim": dim, "family": family, "npts": npts, "ratio": ratio})
+        spec = {"seed": rng.randrange(1 << 40), "dim": dim, "family": family, "npts": npts, "ratio": ratio}
+        if rng.random() < 0.3:
+            # the same point set far from the origin (the properties are translation invariant)
+            spec["offset"] = [rng.choice([0.0, 1024.0, -256.0, 37.0, 1000.0]) for _ in range(dim)]
+        specs.append(spec)
     return specs
 
 
@@ -82,7 +86,7 @@ def run(ctx):
         rule="seeded insertion sequences into a real Triangulation: dims 2/3/4; families random, random with a multi-simplex SciPy "
              "start, lattice, centroid/edge-midpoint/facet-centroid/edge-extension, co-circular/co-spherical (exact integer points "
              "and rounded), mixed; deliberate duplicates; hints: none / located / arbitrary simplex / empty tuple; metric identity or "
-             "diagonal with axis ratio up to 100; non-trivial = distinct op-line sequence",
+             "diagonal with axis ratio up to 100; 30% of the point sets translated by up to 1024 per axis; non-trivial = distinct op-line sequence",
         samples=[r["lines"][:3] for r in results[:2]],
         evaluations=sum(len(r["lines"]) for r in results), distinct=len(corr.distinct),
         explanation="Every add_point is executed on the real object with all predicate calls recorded and replayed on the Lean model "
